@@ -15,6 +15,7 @@ CONSTANTS
   KF_ColonSplit = FALSE
   DumpFile = "vectors.ndjson"
 INVARIANTS
+  VerdictsAreDefinitions
   AcceptImpliesAll
   SingleFailureRefuses
   CodeWithinProp
